@@ -188,7 +188,7 @@ pub fn run_adv(ctx: &mut Ctx, oracle: Oracle, weight: fn(FieldKind) -> u32, nt_k
         });
     }
     ctx.stage("havoc");
-    let cases = ctx.pick(40_000u32, 1_500_000u32) / ctx.nshards;
+    let cases = ctx.pick(250_000u32, 3_000_000u32) / ctx.nshards;
     let bs = bases.clone();
     let strat = adv::havoc_strategy().prop_map(move |(bf, ops)| {
         let bi = (bf as usize * bs.len()) >> 16;
